@@ -25,6 +25,13 @@ def hook(ch, ctx):
         return
     if res["err"] in ("lost", "deadline"):
         return          # no value was returned
+    if res["err"] == "nil" and not any(res["delivered"]) and not ctx["scn"].get("udp"):
+        # (in-memory transport only: over real sockets the transcript is written by the peer's side of the socket and can
+        # lag behind the call)
+        # nothing at all was read during this call, yet it returned a result
+        ch.violation(desc, dict(detail, what="the call returned a result although no datagram was delivered to it",
+                                returned={"code": res["code"], "err": res["err"], "rsp": res["rsp"]}))
+        return
     # the BMC's own answer(s) to this call: the result must be one of them
     answers = set((e["cc"], e["rspdata"]) for e in mine)
     ctx["answers"] = answers
@@ -55,7 +62,7 @@ def run(ch, build):
         pairs = pairs + special
         for k, (a, b) in enumerate(pairs):
             su = hist.SUITES[k % 9]
-            for pattern in ("dup", "delay", "delay3", "errstray", "threestrays") + (("busystray",) if not session else ()):
+            for pattern in ("dup", "delay", "delay3", "errstray", "threestrays") + (("busystray",) if not session else ("nobody-lost",)):
                 scn = {"bmc": conn.default_bmc(seed=k + 1, suites=[[100, su[0], su[1], su[2]]], loose=True), "timeout_ms": 40, "steps": []}
                 cn = "session" if session else "sessionless"
                 if session:
@@ -76,6 +83,13 @@ def run(ch, build):
                     scn["steps"] += [{"op": "cmd", "conn": cn, "cmd": a, "script": ["ok"]},
                                      {"op": "cmd", "conn": cn, "cmd": b, "script": ["dupstep", "dupstep", "dupstep", "ok"]},
                                      {"op": "cmd", "conn": cn, "cmd": c3, "script": ["dupstep", "ok"]}]
+                elif pattern == "nobody-lost":
+                    # inside a session: the reply to a command WITHOUT a response body (Chassis Control, a caller-defined
+                    # command) never arrives - there is no result then, least of all "completion code 00h"
+                    nb = rng.choice([{"name": "chassiscontrol", "p": [rng.randrange(6)]}, {"name": "raw", "p": [0x06, 0x01, 0, 0], "hex": ""}])
+                    scn["steps"] += [{"op": "cmd", "conn": cn, "cmd": a, "script": ["ok"]},
+                                     {"op": "cmd", "conn": cn, "cmd": nb, "script": [rng.choice(["lost", "silence"])], "ctx_ms": 400},
+                                     {"op": "cmd", "conn": cn, "cmd": b, "script": ["ok"]}]
                 elif pattern == "busystray":
                     # B is answered "node busy", its retransmission reads a stray duplicate of A's reply (not an answer to
                     # B), then nothing arrives until B's context expires: B must end in an error, never in A's value
